@@ -171,7 +171,7 @@ def entry_points():
             if "\n" in s or s.strip() != s or not s:
                 s = s.replace("\n", "") .strip() or "x"
             vals = {"family": "Fedora", "version": "20", "arch": "x86_64", "variant": "Server", "timestamp": "1386857206.0",
-                    "packagedir": "Packages"}
+                    "packagedir": "Packages", "repository": "."}
             vals[field] = s.replace("%", "")
             text = "[general]\n" + "".join("%s = %s\n" % kv for kv in sorted(vals.items()))
             TI.TreeInfo().loads(text)
@@ -183,6 +183,18 @@ def entry_points():
             from . import corruptions, samples
             ini = corruptions.Ini(samples.treeinfo(1).dumps())
             ini.p.set(section, option, s)
+            TI.TreeInfo().loads(ini.text())
+        return f
+
+    def ti_media(which):
+        def f(s):
+            s = s.replace("\n", "").replace("%", "").strip() or "1"
+            from . import corruptions, samples
+            ini = corruptions.Ini(samples.treeinfo(1).dumps())
+            if not ini.p.has_section("media"):
+                ini.p.add_section("media")
+            ini.p.set("media", "discnum", s if which != "totaldiscs" else "1")
+            ini.p.set("media", "totaldiscs", s)
             TI.TreeInfo().loads(ini.text())
         return f
 
@@ -306,6 +318,9 @@ def entry_points():
         "TreeInfo.loads(legacy general/family)": ti_legacy("family"),
         "TreeInfo.loads(legacy general/variant)": ti_legacy("variant"),
         "TreeInfo.loads(legacy general/timestamp)": ti_legacy("timestamp"),
+        "TreeInfo.loads(legacy general/repository)": ti_legacy("repository"),
+        "TreeInfo.loads(legacy general/packagedir)": ti_legacy("packagedir"),
+        "TreeInfo.loads(media/discnum of totaldiscs)": ti_media("both"), "TreeInfo.loads(media/totaldiscs)": ti_media("totaldiscs"),
         "TreeInfo.loads(release/version)": ti_current("release", "version"),
         "TreeInfo.loads(header/version)": ti_current("header", "version"),
         "TreeInfo.loads(tree/platforms)": ti_current("tree", "platforms"),
